@@ -41,7 +41,8 @@ def run(tier, rep):
         base = open(dig + ".0").read()
         for p in range(1, procs + 1):
             c.harness(["c05-repeat", "--cases", cases, "--reps", 0, "--threads", 0, "--stride", stride,
-                       "--random", nrandom, "--seed", c.seed(), "--digests", dig + ".%d" % p], timeout=3000)
+                       "--random", nrandom, "--seed", c.seed(), "--digests", dig + ".%d" % p,
+                       "--reverse", 1 if p % 2 == 0 else 0], timeout=3000)
             other = open(dig + ".%d" % p).read()
             if other != base:
                 idx = next(i for i, (a, b) in enumerate(zip(base.split("\n"), other.split("\n"))) if a != b)
